@@ -8,10 +8,15 @@ regenerated from `textx/lang.py` on every run; `Kwd.compileLit` /
 `Kwd.isKeywordLike` / `Kwd.kwRe` are stated over them (`keyword_shape`,
 `kwProbe_shape`, `kwProbeI_shape` in `Proofs/Kwd.lean` are `rfl`).
 
-`Kwd.tokMatch cc tok (p, s)` is one terminal match at a position with previous
-character `p` and remaining input `s` (`StrMatch._parse` / `RegExMatch._parse`);
+`Kwd.tokMatch cc ug tok (p, s)` is one terminal match at a position with previous
+character `p` and remaining input `s` (`StrMatch._parse` / `RegExMatch._parse`): new
+position, the terminal's value and the value `process_node` hands to the object graph
+(`ug` = `use_regexp_group`: group 1 of a regex match with exactly one group);
 `Kwd.parse` / `Kwd.parseText` run a PEG (sequence, ordered choice, `*`, `?`,
-`!`, literals, ID, INT) with Arpeggio's whitespace skipping over such tokens.
+`!`, literals, ID, INT, user regex matches with and without a group; `+`, `&` and
+separator repetitions as derived forms) with Arpeggio's whitespace skipping over such
+tokens.  All theorems hold for every other option value (`Opts`): any whitespace set
+(`ws`, empty = `skipws=False`) and `use_regexp_group` on or off.
 With `ignore_case` the theorems assume that characters that are equal up to case
 are both word characters or both not (`FoldWord`), as is true of Python's tables.
 -/
@@ -39,21 +44,22 @@ theorem C21_keywordlike_iff (cc : CharClasses) (ic : Bool) (l : List Char) :
 
 /-- **Boundary.** With autokwd a keyword-like literal matches at a position iff the literal is
 there (up to case under ignore_case) *and* the next input character is not a word character;
-the terminal then ends right after the literal and carries the literal as its value. -/
+the terminal then ends right after the literal and carries the literal as its value — also as the
+value that reaches the object graph, with and without `use_regexp_group` (never the input's spelling). -/
 theorem C21_boundary (cc : CharClasses) (ic : Bool) (hfw : FoldWord cc ic) (l : List Char)
-    (hk : isKeywordLike cc ic l = true) (p : Option Char) (s : List Char) :
-    litTok cc ⟨true, ic⟩ l (p, s) =
+    (hk : isKeywordLike cc ic l = true) (ug : Bool) (p : Option Char) (s : List Char) :
+    litTok cc ⟨true, ic⟩ ug l (p, s) =
       if litMatch cc ic l s = true ∧ NextNotWord cc (s.drop l.length)
-      then some ((lastOr p (s.take l.length), s.drop l.length), l) else none := by
+      then some ((lastOr p (s.take l.length), s.drop l.length), (l, l)) else none := by
   simp only [litTok, compileLit, hk, Bool.and_self, if_true]
-  exact tokMatch_kw cc ic hfw l hk p s
+  exact tokMatch_kw cc ic hfw l hk ug p s
 
 /-- in particular it never matches when the next input character is a word character -/
 theorem C21_never_glued (cc : CharClasses) (ic : Bool) (hfw : FoldWord cc ic) (l : List Char)
-    (hk : isKeywordLike cc ic l = true) (p : Option Char) (s : List Char) (c : Char)
+    (hk : isKeywordLike cc ic l = true) (ug : Bool) (p : Option Char) (s : List Char) (c : Char)
     (hnext : (s.drop l.length).head? = some c) (hc : cc.isWord c = true) :
-    litTok cc ⟨true, ic⟩ l (p, s) = none := by
-  rw [C21_boundary cc ic hfw l hk p s]
+    litTok cc ⟨true, ic⟩ ug l (p, s) = none := by
+  rw [C21_boundary cc ic hfw l hk ug p s]
   have : ¬ NextNotWord cc (s.drop l.length) := by simp [NextNotWord, hnext, isWordO, hc]
   simp [this]
 
@@ -69,13 +75,13 @@ def NoGluedKeyword (cc : CharClasses) (ic : Bool) (g : PE) (text : List Char) : 
     NextNotWord cc (sfx.drop l.length)
 
 /-- at a position where no keyword is glued, the two configurations produce the same terminal -/
-theorem C21_token_agree (cc : CharClasses) (ic : Bool) (hfw : FoldWord cc ic) (l : List Char) (p : Option Char)
-    (s : List Char)
+theorem C21_token_agree (cc : CharClasses) (ic : Bool) (hfw : FoldWord cc ic) (l : List Char) (ug : Bool)
+    (p : Option Char) (s : List Char)
     (h : isKeywordLike cc ic l = true → litMatch cc ic l s = true → NextNotWord cc (s.drop l.length)) :
-    litTok cc ⟨true, ic⟩ l (p, s) = litTok cc ⟨false, ic⟩ l (p, s) := by
+    litTok cc ⟨true, ic⟩ ug l (p, s) = litTok cc ⟨false, ic⟩ ug l (p, s) := by
   by_cases hk : isKeywordLike cc ic l = true
-  · rw [C21_boundary cc ic hfw l hk p s]
-    have hoff : litTok cc ⟨false, ic⟩ l (p, s) = tokMatch cc (.str l ic) (p, s) := by
+  · rw [C21_boundary cc ic hfw l hk ug p s]
+    have hoff : litTok cc ⟨false, ic⟩ ug l (p, s) = tokMatch cc ug (.str l ic) (p, s) := by
       simp [litTok, compileLit]
     rw [hoff, tokMatch_str]
     by_cases hm : litMatch cc ic l s = true
@@ -85,25 +91,56 @@ theorem C21_token_agree (cc : CharClasses) (ic : Bool) (hfw : FoldWord cc ic) (l
   · have hk' : isKeywordLike cc ic l = false := by simpa using hk
     simp only [litTok, C21_non_kwd_unchanged cc ic l hk']
 
-/-- **Same model.** For every grammar of the PEG fragment and every text in which no keyword-like
-literal is immediately followed by a word character, parsing with autokwd gives exactly the result
-of parsing without it: same acceptance, same terminals at the same offsets with the same values. -/
-theorem C21_same_model (cc : CharClasses) (ic : Bool) (hfw : FoldWord cc ic) (g : PE) (text : List Char)
+/-- **Same model.** For every grammar of the PEG fragment, every value of the other options (whitespace
+set / `skipws`, `use_regexp_group`) and every text in which no keyword-like literal is immediately
+followed by a word character, parsing with autokwd gives exactly the result of parsing without it:
+same acceptance, same terminals at the same offsets with the same values and the same values for the
+object graph. -/
+theorem C21_same_model (cc : CharClasses) (ic : Bool) (hfw : FoldWord cc ic) (o : Opts) (g : PE) (text : List Char)
     (h : NoGluedKeyword cc ic g text) :
-    parseText cc ⟨true, ic⟩ g text = parseText cc ⟨false, ic⟩ g text := by
-  have key : parse cc (litTok cc ⟨true, ic⟩) g (none, text) = parse cc (litTok cc ⟨false, ic⟩) g (none, text) := by
-    apply parse_congr cc _ _ (litTok_rightward cc ⟨true, ic⟩) g (none, text)
+    parseText cc ⟨true, ic⟩ o g text = parseText cc ⟨false, ic⟩ o g text := by
+  have key : parse cc o (litTok cc ⟨true, ic⟩ o.useGroup) g (none, text) =
+      parse cc o (litTok cc ⟨false, ic⟩ o.useGroup) g (none, text) := by
+    apply parse_congr cc o _ _ (litTok_rightward cc ⟨true, ic⟩ o.useGroup) g (none, text)
     intro l hl t ht
     obtain ⟨p, s⟩ := t
-    exact C21_token_agree cc ic hfw l p s (fun hk hm => h l hl hk s ht hm)
+    exact C21_token_agree cc ic hfw l o.useGroup p s (fun hk hm => h l hl hk s ht hm)
   simp only [parseText, key]
 
+theorem compileLit_cases (cc : CharClasses) (cfg : Cfg) (l : List Char) :
+    compileLit cc cfg l = .re (kwRe cfg.icase l) (some l) ∨ compileLit cc cfg l = .str l cfg.icase := by
+  unfold compileLit; split <;> simp
+
+/-- `use_regexp_group` is about user regexes with one group only: a terminal compiled from a grammar
+*literal* (string match or keyword match, any configuration) hands its terminal value on to the object
+graph unchanged, and the option does not influence whether and where it matches. -/
+theorem C21_literal_value (cc : CharClasses) (cfg : Cfg) (ug : Bool) (l : List Char) (s u : St) (v a : List Char)
+    (h : litTok cc cfg ug l s = some (u, (v, a))) :
+    a = v ∧ v = l ∧ litTok cc cfg (!ug) l s = some (u, (v, a)) := by
+  unfold litTok at h ⊢
+  rcases compileLit_cases cc cfg l with hc | hc <;> rw [hc] at h ⊢
+  · simp only [tokMatch] at h ⊢
+    cases hm : pyMatchSt cc (kwRe cfg.icase l) s with
+    | none => simp [hm] at h
+    | some t =>
+      simp only [hm] at h ⊢
+      by_cases hn : s.2.length - t.2.length = 0
+      · simp [hn] at h
+      · simp only [hn, if_false, Option.getD_some, Option.some.injEq, Prod.mk.injEq] at h ⊢
+        obtain ⟨rfl, rfl, rfl⟩ := h
+        simp
+  · simp only [tokMatch] at h ⊢
+    by_cases hm : litMatch cc cfg.icase l s.2 = true
+    · simp only [hm, if_true, Option.some.injEq, Prod.mk.injEq] at h ⊢
+      obtain ⟨rfl, rfl, rfl⟩ := h
+      simp
+    · simp [hm] at h
 /-- The hypothesis is needed, and autokwd does what it is for: `'ab' ID` accepts "abx" without
 autokwd (`ab`, `x`) and rejects it with autokwd. -/
 theorem C21_glued_differs :
-    parseText asciiCC ⟨false, false⟩ (.seq (.lit ['a', 'b']) .ident) ['a', 'b', 'x'] =
-      some [(0, ['a', 'b']), (2, ['x'])] ∧
-    parseText asciiCC ⟨true, false⟩ (.seq (.lit ['a', 'b']) .ident) ['a', 'b', 'x'] = none := by
+    parseText asciiCC ⟨false, false⟩ ⟨defaultWs, false⟩ (.seq (.lit ['a', 'b']) .ident) ['a', 'b', 'x'] =
+      some [(0, ['a', 'b'], ['a', 'b']), (2, ['x'], ['x'])] ∧
+    parseText asciiCC ⟨true, false⟩ ⟨defaultWs, false⟩ (.seq (.lit ['a', 'b']) .ident) ['a', 'b', 'x'] = none := by
   constructor <;> decide +kernel
 
 /-! ### non-vacuity -/
@@ -125,7 +162,25 @@ example : NoGluedKeyword asciiCC false (.seq (.lit ['a', 'b']) .ident) ['a', 'b'
     | [_, _, _, _], h => simp at h; simp [h.2.2.2]
     | _ :: _ :: _ :: _ :: _ :: _, h => simp at h
   rcases this with h | h | h | h | h <;> subst h <;> revert hm <;> decide +kernel
-example : parseText asciiCC ⟨true, false⟩ (.seq (.lit ['a', 'b']) .ident) ['a', 'b', ' ', 'x'] =
-    some [(0, ['a', 'b']), (3, ['x'])] := by decide +kernel
+example : parseText asciiCC ⟨true, false⟩ ⟨defaultWs, false⟩ (.seq (.lit ['a', 'b']) .ident) ['a', 'b', ' ', 'x'] =
+    some [(0, ['a', 'b'], ['a', 'b']), (3, ['x'], ['x'])] := by decide +kernel
+/-- ignore_case + use_regexp_group: the keyword reaches the object graph in the grammar's spelling, the
+user regex `/#(\w+)/` contributes its group -/
+example : parseText asciiCC ⟨true, true⟩ ⟨defaultWs, true⟩
+    (.seq (.lit ['a', 'b']) (.rx (.chr '#') (some (R.plus W)))) ['A', 'B', ' ', '#', 't', '1'] =
+    some [(0, ['a', 'b'], ['a', 'b']), (3, ['#', 't', '1'], ['t', '1'])] := by decide +kernel
+/-- `skipws=False`: nothing is skipped -/
+example : parseText asciiCC ⟨true, false⟩ ⟨[], false⟩ (.seq (.lit ['a', 'b']) .ident) ['a', 'b', ' ', 'x'] = none := by
+  decide +kernel
+/-- separator repetition `ID+['and']` under autokwd; a separator whose element fails stays in the parse tree
+(`x and .`: the position returns to before `and`) -/
+example : parseText asciiCC ⟨true, false⟩ ⟨defaultWs, false⟩
+    (.seq (.sepPlus .ident (.lit ['a', 'n', 'd'])) (.seq (.lit ['a', 'n', 'd']) (.lit ['.'])))
+    ['x', ' ', 'a', 'n', 'd', ' ', '.'] =
+    some [(0, ['x'], ['x']), (2, ['a', 'n', 'd'], ['a', 'n', 'd']), (2, ['a', 'n', 'd'], ['a', 'n', 'd']),
+      (6, ['.'], ['.'])] := by decide +kernel
+example : parseText asciiCC ⟨true, false⟩ ⟨defaultWs, false⟩ (.sepPlus .ident (.lit ['a', 'n', 'd']))
+    ['x', ' ', 'a', 'n', 'd', ' ', 'y'] =
+    some [(0, ['x'], ['x']), (2, ['a', 'n', 'd'], ['a', 'n', 'd']), (6, ['y'], ['y'])] := by decide +kernel
 
 end Kwd
